@@ -412,8 +412,84 @@ def choreographed_threads(ctx, rounds):
                      family='choreographed-threads')
 
 
+def root_exceptions(ctx, n):
+    """directed family: a root activity lets an exception escape - of every kind, at once or after a wait - while other
+    roots are suspended (in a plain wait, holding a lock, holding borrowed resources, inside an until block) or still
+    have work queued.  From the text: run() re-raises that very object, nothing of the others runs afterwards, and the
+    thread sees no simulation afterwards."""
+    import usim
+
+    class Custom(BaseException):
+        pass
+    kinds = [KeyError, ValueError, StopAsyncIteration, KeyboardInterrupt, SystemExit, AssertionError, OSError, Custom,
+             LookupError, ZeroDivisionError]
+    for _ in range(n):
+        E = ctx.rng.choice(kinds)
+        d = ctx.rng.choice([0, 0, 1, 3])
+        others = ctx.rng.sample(['wait', 'lock', 'borrow', 'until', 'busy', 'scope'], ctx.rng.choice([0, 1, 2, 3]))
+        first = ctx.rng.random() < 0.5
+        case = {'root_exception': E.__name__, 'after': d, 'other_roots': others, 'failing_root_first': first}
+        err = E('the one')
+        late = []
+        lock = usim.Lock()
+        res = usim.Resources(a=3)
+
+        async def failing():
+            if d:
+                await (usim.time + d)
+            raise err
+
+        async def other(kind):
+            if kind == 'wait':
+                await (usim.time + 50)
+            elif kind == 'lock':
+                async with lock:
+                    await (usim.time + 50)
+            elif kind == 'borrow':
+                async with res.borrow(a=2):
+                    await (usim.time + 50)
+            elif kind == 'until':
+                async with usim.until(usim.time + 60):
+                    await (usim.time + 50)
+            elif kind == 'scope':
+                async with usim.Scope() as s:
+                    s.do(other('wait'))
+                    await (usim.time + 50)
+            else:
+                while True:
+                    await (usim.time + 1)
+                    if usim.time.now > d:
+                        late.append(usim.time.now)
+            late.append(('finished', kind))
+        roots = [other(k) for k in others]
+        roots = [failing()] + roots if first else roots + [failing()]
+        got = None
+        try:
+            usim.run(*roots)
+        except BaseException as e:   # noqa
+            got = e
+        ctx.count(case, nontrivial=bool(others))
+        ctx.bump('family:root-exceptions')
+        if got is not err:
+            ctx.fail(case, 'a root activity raised %r; run() %s' % (err, 'returned normally' if got is None else 'raised %r instead' % (got,)),
+                     family='root-exceptions')
+        if late:
+            ctx.fail(case, 'other roots kept running after the failure ended the run: %r' % (late[:5],), family='root-exceptions')
+        try:
+            usim.time.now
+            ctx.fail(case, 'time.now still works after the failed run()', family='root-exceptions')
+        except RuntimeError:
+            pass
+        for r in roots:
+            try:
+                r.close()     # (outside a simulation; a root suspended inside a borrow block cannot give back)
+            except BaseException:   # noqa
+                pass
+
+
 def run(ctx):
     choreographed_threads(ctx, ctx.n(3, 25))
+    root_exceptions(ctx, ctx.n(60, 800))
     scs, impl = machine_prop.run(ctx, [('mixed', 100, 1500, {}), ('trees', 60, 1000, {}), ('timers', 60, 1000, {'till_p': 0.8})],
                                  ['C15', 'till'])
     cases = run_programs(ctx, ctx.n(150, 3000))
